@@ -3,7 +3,7 @@
    (lexer -> token stream -> parser -> transforms), proofs in proofs/DeclExamples.v. *)
 From Coq Require Import List NArith Bool Arith.
 Import ListNotations.
-From PV Require Import Regex Base LexTables NodeModel ParserBase ParserDecl ParserMain Api DeclExamples.
+From PV Require Import Regex Base LexTables NodeModel ParserBase ParserDecl ParserMain Api DeclExamples AstSpec DeclProofs.
 
 (* array of pointers to functions returning pointer to int: derivations from the identifier outward *)
 Theorem C03_inside_out :
@@ -29,3 +29,10 @@ Theorem C03_atomic_shared_refuted :
 Proof. exact ex_C03_atomic_shared_refuted. Qed.
 Print Assumptions C03_atomic_shared_refuted.
 
+(* _type_modify_decl splices the modifier chain between the declarator's own chain and its TypeDecl,
+   for a declarator chain and a modifier chain (pointer prefix, array / function suffix) of ANY length *)
+Theorem C03_modify_splice : forall (P: Type) ld fs co lm fuel s, lm <> [] -> (length ld + length lm <= fuel)%nat ->
+  type_modify_decl P fuel (build P ld (typedecl P fs co)) (build P lm VNone) s
+  = Ok (build P (ld ++ lm) (typedecl P fs co), s).
+Proof. exact modify_splice. Qed.
+Print Assumptions C03_modify_splice.
